@@ -80,6 +80,12 @@ func realise(elems []string, padlen int) string {
 			b.WriteByte(' ')
 		case "nul":
 			b.WriteByte(0)
+		case "lf":
+			b.WriteByte('\n')
+		case "cr":
+			b.WriteByte('\r')
+		case "tab":
+			b.WriteByte('\t')
 		case "u2":
 			b.WriteString("é")
 		case "u4":
@@ -177,6 +183,13 @@ func identReplay(mode string, raw json.RawMessage) hx.Result {
 				return fail("NewRoomID", k, want, "parts", fmt.Sprintf("domainless parts do not re-concatenate: opaque=%q", rid.OpaqueID()))
 			}
 		}
+		// the same string as the room_id of an event, through the event constructors (they validate it)
+		if roomIDThroughEvents(r, s) {
+			if res := roomIDInEvents(r, s, fail); res != nil {
+				return *res
+			}
+			nt += "|in-event"
+		}
 		return hx.Result{OK: true, NT: nt}
 	case "sn":
 		want, k := r.SN, r.KS
@@ -252,4 +265,62 @@ func identReplay(mode string, raw json.RawMessage) hx.Result {
 		}
 		return hx.Result{OK: true, NT: nt}
 	}
+}
+
+// roomIDThroughEvents selects the strings that also go through the event constructors: the whole family
+// "stray", and elsewhere everything that has the shape of a room ID (the sigil; valid, domainless-like or short).
+func roomIDThroughEvents(r identRec, s string) bool {
+	if strings.HasPrefix(r.Fam, "stray") {
+		return true
+	}
+	return strings.HasPrefix(s, "!") && (r.RM != "rej" || r.Cut == 0 || r.Fam == "free")
+}
+
+// roomIDInEvents: an event (not a create event) whose room_id is s, in one room version per constructor, on
+// receipt and from trusted JSON.  A string that is no room ID must not get through; a valid room ID of the form
+// the version uses must; and whatever gets through reports the room ID it came with.
+func roomIDInEvents(r identRec, s string, fail func(parser, k, want, got, what string) hx.Result) *hx.Result {
+	for _, ver := range []string{"1", "10", "12"} {
+		v := mustVersion(ver)
+		js := handSigned(ver, v, evFields{Type: "c17.test", Sender: "@alice:hs1", RoomID: s, Content: map[string]string{"body": "x"}})
+		var back struct {
+			RoomID string `json:"room_id"`
+		}
+		if err := json.Unmarshal(js, &back); err != nil || back.RoomID != s {
+			fatalf("concretiser: the event JSON does not carry the room ID %q (%v)", s, err)
+		}
+		for _, ctor := range []string{"NewEventFromUntrustedJSON", "NewEventFromTrustedJSON"} {
+			var ev gmsl.PDU
+			var err error
+			if ctor == "NewEventFromUntrustedJSON" {
+				ev, err = v.NewEventFromUntrustedJSON(js)
+			} else {
+				ev, err = v.NewEventFromTrustedJSON(js, false)
+			}
+			name := ctor + "-room_id"
+			// a persistable "too large" report is not an acceptance of the room ID
+			accepted := err == nil
+			got := verdictOf(accepted)
+			if r.RM == "rej" && accepted {
+				res := fail(name, r.KR, "rej", "acc", fmt.Sprintf("room version %s: the grammar says this is no room ID, the constructor makes an event of it", ver))
+				return &res
+			}
+			formOfVersion := (ver == "12") == (r.Cut == 0) // domainless in version 12, with a domain before
+			if r.RM == "acc" && formOfVersion && !accepted {
+				res := fail(name, r.KR, "acc", got, fmt.Sprintf("room version %s: a valid room ID is refused as the room_id of an event (err=%v)", ver, err))
+				return &res
+			}
+			if accepted {
+				if isNilPDU(ev) {
+					res := fail(name, r.KR, r.RM, "nothing", fmt.Sprintf("room version %s: no error and no event", ver))
+					return &res
+				}
+				if rid := ev.RoomID(); rid.String() != s {
+					res := fail(name, r.KR, r.RM, "parts", fmt.Sprintf("room version %s: the event reports room ID %q", ver, rid.String()))
+					return &res
+				}
+			}
+		}
+	}
+	return nil
 }
